@@ -431,6 +431,7 @@ def convert_resize_to_upscale_and_average_pool(op):
     pre_op = op
     outputs = op.outputs
     dtype = op.ifm.dtype
+    ofm_shape = op.ofm_shapes[0]
 
     op.attrs.update({"strides": (1, 1, 1, 1), "ksize": (1, 1, 1, 1)})
     op.attrs["padding"] = Padding.SAME  # doesn't really matter as the kernel is 1x1
@@ -494,6 +495,9 @@ def convert_resize_to_upscale_and_average_pool(op):
     scaled_op.outputs = outputs
     scaled_op.outputs[0].ops = [scaled_op]
     scaled_op.set_ifm_ofm_shapes()
+    # The OFM tensor may be the output of a bypassed memory only op (e.g. a Reshape that followed the resize), in which
+    # case its shape is not the shape this operator produces
+    scaled_op.ofm_shapes[0] = ofm_shape
     DebugDatabase.add_optimised(op, scaled_op)
 
     return op
